@@ -83,7 +83,7 @@ def go_req(s):
         s["kind"] + ("/" + s["flavour"] if s.get("flavour") else ""), s["k"], s["p"], " ".join(s["outs"]))
 
 
-EXOTIC_IS = ["canceled", "deadline", "deadline", "canceled", "retries", "waitdl", "retries", "canceled"]   # the sentinel exotic failure value k is or wraps
+EXOTIC_IS = ["canceled", "deadline", "deadline", "canceled", "retries", "waitdl", "retries", "canceled", "retries", "retries"]   # the sentinel exotic failure value k is or wraps (8, 9: the *FError of an inner retry holding 5 / 2 collected errors)
 
 
 def plain(outs):
@@ -190,7 +190,7 @@ def run_spec(s, ans):
         bits = f[3]
         if reason and reason[0] == "u" and raw[calls - 1][0] == "F":
             # the unrecoverable failure is why it stopped: the failure returned must match it (errors.Is), i.e. the sentinel it is or wraps
-            want = EXOTIC_IS[int(raw[calls - 1][1:]) % 8]
+            want = EXOTIC_IS[int(raw[calls - 1][1:]) % len(EXOTIC_IS)]
             if bits[TARGETS.index(want)] != "1":
                 bad.append(("reason-not-matched:user", "stopped on an unrecoverable failure that is/wraps %s but errors.Is(failure, %s) is false" % (want, want)))
         elif reason and reason[0] == "u":
@@ -317,10 +317,10 @@ def build_cases(tier, seed, rnd):
             cases.append(scn("ctx", r, 1, with_ids(t, "distinct"), backoff=3, mx=50, jit=1))
     # --- failure VALUES that mean something to the retry package (errors of other contexts, bare and wrapped, its own sentinels,
     #     the *FError of an inner retry): recoverable ones must be re-run up to the limit, unrecoverable ones end the call and are its reason
-    for x in range(8):
+    for x in range(len(EXOTIC_IS)):
         for r in (-1, 1, 2, 4, 7):
             for kp in (0, 2):
-                cases.append(scn("ctx", r, kp, ["R%d" % x, "R%d" % x, "R%d" % ((x + 3) % 8), "o"]))
+                cases.append(scn("ctx", r, kp, ["R%d" % x, "R%d" % x, "R%d" % ((x + 3) % len(EXOTIC_IS)), "o"]))
                 cases.append(scn("ctx", r, kp, ["R%d" % x] * 9))
                 cases.append(scn("ctx", r, kp, ["r1", "R%d" % x, "F%d" % x, "o"]))
                 cases.append(scn("ctx", r, kp, ["F%d" % x, "o"]))
@@ -391,7 +391,11 @@ def timing_cases(seed):
             dict(type="timing", backoff=-5, max=-7, jit=0, seed=seed, retries=6),
             dict(type="timing", backoff=3 * 10 ** 9, max=5 * MS, jit=0, seed=seed, retries=3),
             dict(type="timing", backoff=1 * MS, max=6 * MS, jit=1, seed=seed, retries=5),
-            dict(type="timing", backoff=1 * MS, max=6 * MS, jit=1, seed=seed + 1, retries=5)]
+            dict(type="timing", backoff=1 * MS, max=6 * MS, jit=1, seed=seed + 1, retries=5),
+            # an operation that takes time to fail (a dial or send timing out): the pause is counted from the END of a run
+            dict(type="timing", backoff=2 * MS, max=5 * MS, jit=0, seed=seed, retries=5, opdur=3 * MS),
+            dict(type="timing", backoff=4 * MS, max=0, jit=0, seed=seed, retries=4, opdur=1 * MS),
+            dict(type="timing", backoff=3 * MS, max=3 * MS, jit=0, seed=seed, retries=4, opdur=10 * MS)]
 
 
 _HARNESS = {}
@@ -476,7 +480,7 @@ def _run(tier, seed, replay=None):
             return go_req(it)
         if it["type"] == "tie":
             return "tie %d %d" % (it["trials"], it["mode"])
-        return "timing %d %d %d %d %d" % (it["backoff"], it["max"], it["jit"], it["seed"], it["retries"])
+        return "timing %d %d %d %d %d %d" % (it["backoff"], it["max"], it["jit"], it["seed"], it["retries"], it.get("opdur", 0))
 
     def harness(its, tag=""):
         rc, lines, glog = vlib.run_harness(exe, "TestVerifC18", "\n".join(go_line(i) for i in its) + "\n",
